@@ -127,6 +127,20 @@ if os.path.exists(sync_idx) and os.path.exists(sync_res):
         if m['name'] in notes:
             verdict += ' - ' + notes[m['name']]
         out += '| %s | %s:%d | %s (%s) | `%s` | %s | %s |\n' % (m['name'], m['file'], m['line'], m['operator'], m['what'], m['source_line'].replace('|', '/'), 'pass' if m['survives_package_tests'] else 'fail', verdict)
+    nrace = sum(1 for m in surv if 'data race' in notes.get(m['name'], ''))
+    nscope = sum(1 for m in surv if 'out of scope' in notes.get(m['name'], ''))
+    out += ("\nEvery survivor was read against the code (the verdict column gives the reason): %d are equivalent for the\n"
+            "property (both statements under the lock, a legal Signal/Broadcast after Unlock, statistics, a legal buffer\n"
+            "count, an enclosing loop that re-tests), %d concern the end of the accept loop or Close, which the\n"
+            "fault-free runs of C19/C10 do not reach before the judged calls return, and %d are **data races only**:\n"
+            "a lock removed around a single map or field access changes nothing at statement granularity. That last\n"
+            "group is the honest blind spot of this technique here: the simulator interleaves at synchronisation\n"
+            "points and, in variant `stmt`, before every statement of the mutex-guarded functions, but it has no\n"
+            "happens-before detector, and under its one-task-at-a-time hand-off the Go race detector sees every\n"
+            "access as ordered. (C17 has the race-detector companion on real goroutines for this reason.) The killed\n"
+            "lock mutants (014, 038) are exactly those where the unguarded section spans more than one statement -\n"
+            "they need the statement-level scheduling points and were not killed before variant `stmt` existed.\n"
+            % (len(surv) - nrace - nscope, nscope, nrace))
     out += '\n---------------------------------------------------------------------------------------------\n\n'
 
 p = V + '/DESIGN.md'
